@@ -66,3 +66,22 @@ fn c07_k_line_string_contains_point_axis() {
     assert!((d == 0.0) == on);
     kani::cover!(px == 1 && py == 7, "same x as the start vertex of the horizontal segment, off the line string");
 }
+
+/// Line x open LineString whose closest approach is between the LAST (resp. FIRST) vertex of the line string and the
+/// interior of the line: every vertex of the line string is measured against the line, the value does not depend on the
+/// direction in which the line string is written nor on the operand order.  BOUNDED: literal shapes (3-4-5 offsets, so the
+/// end-point distances are exact).
+#[cfg(kani)]
+#[kani::proof]
+#[kani::unwind(6)]
+#[kani::stub(f64::hypot, hypot_model)]
+#[kani::stub(robust::orient2d, robust_orient2d_model)]
+fn c07_k_line_linestring_last_vertex() {
+    let c = |x: f64, y: f64| Coord { x, y };
+    let line = Line::new(c(0.0, 0.0), c(6.0, 0.0));
+    let down = LineString(vec![c(3.0, 14.0), c(3.0, 9.0), c(3.0, 4.0)]);
+    let up = LineString(vec![c(3.0, 4.0), c(3.0, 9.0), c(3.0, 14.0)]);
+    assert!(Euclidean.distance(&line, &down) == 4.0);
+    assert!(Euclidean.distance(&line, &up) == 4.0);
+    assert!(Euclidean.distance(&down, &line) == 4.0);
+}
